@@ -168,7 +168,7 @@ def slot_of_output(outdir):
 
 def impl_boot(tmp, v, c, cfg_text, via, soc=None):
     """image boot for an envelope of class (v, c): the offset of the slot it lands in, or the exception"""
-    d = tempfile.mkdtemp(prefix="boot-", dir=tmp)
+    d = core.shared_dir(tmp, "shared-boot") if via != "cli" else tempfile.mkdtemp(prefix="boot-", dir=tmp)
     try:
         envp = impl_envelope(d, v, c)
         cfgp = None
